@@ -1,4 +1,125 @@
-import ZbossModel.Host
+import ZbossModel.Proofs.Host
+/-! # C20 - closing or losing the link never strands a caller and is reported once -/
 namespace Zboss.Host
-theorem C20_placeholder : True := trivial
+
+/-- **new requests are refused immediately** once the link is gone (closed or lost) -/
+theorem C20_refuse_new (st : St) (id key : Nat) (blocking : Bool) (nfrags timeout : Nat) (hclosed : st.isOpen = false)
+    (hfresh : st.reqs.any (·.id == id) = false) :
+    (step st (.start id key blocking nfrags timeout)).out = [.done id .runtimeError] ∧
+    (step st (.start id key blocking nfrags timeout)).reqs = st.reqs := by
+  simp [step, hfresh, hclosed, emit]
+
+theorem settle_isOpen (f : Nat) (s : St) : (settle f s).isOpen = s.isOpen := (frame_settle f s).isOpen
+theorem settle_transport (f : Nat) (s : St) : (settle f s).transport = s.transport := (frame_settle f s).transport
+theorem settle_pack (f : Nat) (s : St) : (settle f s).pack = s.pack := (frame_settle f s).pack
+theorem settle_listeners_nil (f : Nat) (s : St) (h : s.listeners = []) : (settle f s).listeners = [] := by
+  apply List.eq_nil_iff_forall_not_mem.mpr
+  intro l hl
+  have := (frame_settle f s).listeners l hl
+  rw [h] at this; simp at this
+
+/-- **close cancels every waiter and shuts the link**: afterwards no response listener is registered, the
+    link is closed and the transport gone; every request that was waiting for its response is woken -/
+theorem C20_close (st : St) (hnr : st.resetting = false) :
+    (step st .close).listeners = [] ∧ (step st .close).isOpen = false ∧
+    (st.isOpen = true → (step st .close).transport = false ∧ (step st .close).pack = 0) := by
+  simp only [step, hnr, Bool.false_eq_true, if_false]
+  refine ⟨?_, ?_, ?_⟩
+  · apply settle_listeners_nil
+    split <;> rfl
+  · rw [settle_isOpen]
+    split
+    · rfl
+    · rename_i h; simpa using h
+  · intro ho
+    rw [settle_transport, settle_pack]
+    simp [ho, emit]
+
+/-- every request that had a listener at `close` has its response future cancelled -/
+theorem C20_close_cancels (st : St) (hnr : st.resetting = false) (l : Nat × Nat) (hl : l ∈ st.listeners) (r : Req)
+    (hr : r ∈ st.reqs) (hid : r.id = l.1) :
+    ∃ st1, step st .close = settle settleFuel st1 ∧ ∃ r' ∈ st1.reqs, r'.id = r.id ∧ r'.got = .cancelled := by
+  simp only [step, hnr, Bool.false_eq_true, if_false]
+  have hc : (st.listeners.map (·.1)).contains r.id = true := by
+    simp only [List.contains_eq_mem, List.mem_map, decide_eq_true_eq]
+    exact ⟨l, hl, hid.symm⟩
+  split
+  · exact ⟨_, rfl, { r with got := .cancelled }, List.mem_map.mpr ⟨r, hr, if_pos hc⟩, rfl, rfl⟩
+  · exact ⟨_, rfl, { r with got := .cancelled }, List.mem_map.mpr ⟨r, hr, if_pos hc⟩, rfl, rfl⟩
+
+/-- **closing again is harmless**: a second close closes nothing and reports nothing but completions -/
+theorem C20_close_idempotent (st : St) (hclosed : st.isOpen = false) :
+    Out.closeOut ∉ (step st .close).out ∧ Out.appLost ∉ (step st .close).out := by
+  simp only [step]
+  split
+  · exact ⟨notmem_of_frame (frame_settle _ _) _ rfl (by simp [hclosed]),
+      notmem_of_frame (frame_settle _ _) _ rfl (by simp [hclosed])⟩
+  · exact ⟨notmem_of_frame (frame_settle _ _) _ rfl (by simp [hclosed]),
+      notmem_of_frame (frame_settle _ _) _ rfl (by simp [hclosed])⟩
+
+/-- **loss is reported exactly once - and not at all while a deliberate reset is in progress** -/
+theorem C20_lost_once (st : St) :
+    ((step st .lost).out.filter (· == Out.appLost)).length = (if st.resetting then 0 else 1) ∧
+    (step st .lost).isOpen = false := by
+  simp only [step]
+  refine ⟨?_, by rw [settle_isOpen]; split <;> rfl⟩
+  rw [count_of_frame (frame_settle _ _) Out.appLost rfl]
+  by_cases hr : st.resetting = true
+  · simp [hr]
+  · have hr' : st.resetting = false := by simpa using hr
+    simp [hr', emit]
+
+/-- no other event ever reports a loss, and only `close` closes -/
+theorem C20_no_spurious_report (st : St) (e : Ev) (he : ∀ b, e ≠ .lost ∧ e ≠ .close ∧ e ≠ .setReset b) (o : Out)
+    (ho : o = .appLost ∨ o = .closeOut) : o ∉ (step st e).out := by
+  have hwd : isWD o = false := by rcases ho with h | h <;> subst h <;> rfl
+  have hne : o ≠ .wack := by rcases ho with h | h <;> subst h <;> simp
+  cases e with
+  | start id k blocking nfrags timeout =>
+    simp only [step]
+    split
+    · simp
+    split
+    · rcases ho with h | h <;> subst h <;> simp [emit]
+    · exact notmem_of_frame (frame_settle _ _) o hwd (by simp)
+  | rxAck k => simp only [step]; split <;> exact notmem_of_frame (frame_settle _ _) o hwd (by simp)
+  | rxRsp k =>
+    simp only [step]
+    have h1 : o ∉ (if ({ st with out := [] } : St).transport = true then emit { st with out := [] } Out.wack else { st with out := [] }).out := by
+      split
+      · simp [emit]; exact hne
+      · simp
+    generalize (if ({ st with out := [] } : St).transport = true then emit { st with out := [] } Out.wack else { st with out := [] }) = st1 at h1
+    cases st1.listeners.find? (fun l => l.2 == k) with
+    | none => exact notmem_of_frame (frame_settle _ _) o hwd h1
+    | some p =>
+      obtain ⟨i, k'⟩ := p
+      simp only []
+      apply notmem_of_frame (frame_settle _ _) o hwd
+      split <;> simpa [updReq] using h1
+  | tick =>
+    simp only [step]
+    cases nextDeadline { st with out := [] } with
+    | none => simp
+    | some d =>
+      simp only []
+      exact notmem_of_frame ((frame_foldl_unwind _ _ _).trans (frame_settle _ _)) o hwd (by simp)
+  | cancel id =>
+    simp only [step]
+    cases getReq { st with out := [] } id with
+    | none => simp
+    | some r =>
+      simp only []
+      split
+      · simp
+      · exact notmem_of_frame ((frame_unwind _ _ _).trans (frame_settle _ _)) o hwd (by simp)
+  | close => exact absurd rfl (he true).2.1
+  | lost => exact absurd rfl (he true).1
+  | setReset b => exact absurd rfl (he b).2.2
+
+/-! ## non-vacuity: close with a request awaiting its ACK and one queued: both end within the ACK wait -/
+example : let r := runEvents {} [.start 1 5 true 3 3013, .start 2 1 true 1 5026, .close, .tick]
+    r.2 = [[.write 1 0 0 3], [], [.closeOut], [.done 1 .runtimeError, .done 2 .runtimeError]] ∧ r.1.now = 1000 := by
+  decide +kernel
+
 end Zboss.Host
